@@ -8,10 +8,13 @@ from specs.common import run, ASSUME_COMMON
 # plus 8 generated extract inputs.  20 500 quick cases = 9 complete bases (4 of them plain
 # version-00 headers) + 19 878 random cases; 2 500 000 thorough cases = 1 114 bases.
 SPEC = {
-    "runs": [run("e1-recogniser", "c09_w3c", "asan", 20500, 2500000, need_lib=False)],
+    "runs": [run("e1-recogniser", "c09_w3c", "asan", 20500, 2500000, need_lib=False),
+             # the shared propagator objects used by 2..8 threads at once (TSan + perturbation shim)
+             run("e2-threads", "prop_threads", "tsan", 60, 3000, sq=2, st=8, need_lib=False, params={"prop": "C09"},
+                 sources=["harness/prop_threads.cc", "vf/shim/vf_runtime.cc"])],
     "floors": {
         # the enumerated block is deterministic: 4 of the 9 quick bases are plain version-00 headers
-        "quick": {"enum_single_byte_mutants_v00": 14080, "enum_positions_v00": 55, "enum_flag_bytes_injected": 512,
+        "quick": {"concurrent_cases_ge4_threads": 15, "extracts_repeated_over_scribbled_stack": 20000, "enum_single_byte_mutants_v00": 14080, "enum_positions_v00": 55, "enum_flag_bytes_injected": 512,
                   "enum_one_byte_extensions": 1024, "roundtrips": 6000, "roundtrips_flags_other_bits": 3000,
                   "injects_with_tracestate": 3000, "injects_invalid_context": 1200,
                   "roundtrip_tracestate_value_with_leading_blank": 1500,
@@ -64,6 +67,7 @@ SPEC = {
             {"name": "every prefix, suffix, one-byte deletion and duplication per base", "counter": "enum_cuts"},
             {"name": "all 256 trace-flag bytes injected and round-tripped per base", "counter": "enum_flag_bytes_injected"},
         ]},
+    "rule_extra": ' Every Extract is executed twice over differently pre-filled stacks and must give the same outcome (extract-deterministic). Run e2-threads: case j = 2..8 threads doing 20..200 inject/extract round trips each (random ids, flags, trace state) through ONE shared HttpTraceContext object, under TSan with seeded yields/sleeps; each thread must read back its own context.',
     "assumptions": ASSUME_COMMON + [
         "must-accept = version != ff, version 00 exactly 55 bytes, higher versions 55 bytes or a '-' and visible ASCII after "
         "the flags, non-zero ids; hex digits of either case and surrounding blanks/tabs are accepted shapes (DESIGN C09); "
